@@ -333,240 +333,274 @@ func setKey(m map[string]bool) string {
 // executing the operations a conditional generates (Delete, Update, Mutate) affects
 // exactly the rows its List reported.
 func TestC08API(t *testing.T) {
-	rapid.Check(t, func(t *rapid.T) {
-		kit.PinUUIDs(1)
-		tb := c08Table(t)
-		configs := c08Configs(t)
-		cfg := configs[rapid.IntRange(0, len(configs)-1).Draw(t, "config")]
-		tb.Indexes = cfg.schema
-		s := kit.Schema{Name: "DB", Version: "1.0.0", Tables: []kit.Table{tb}}
-		var cidx map[string][]model.ClientIndex
-		if len(cfg.client) > 0 {
-			cidx = map[string][]model.ClientIndex{tb.Name: cfg.client}
-		}
-		rows := kit.Rows{}
-		n := rapid.IntRange(0, 8).Draw(t, "nrows")
-		for i := 0; i < n; i++ {
-			r := genIndexRow(t, tb)
-			r["s0"] = kit.Scalar(kit.Str(fmt.Sprintf("n%d", i)))
-			if rapid.IntRange(0, 2).Draw(t, "copyrow") == 0 && i > 0 {
-				src := rows[kit.MkUUID(rapid.IntRange(1, i).Draw(t, "src"))]
-				for _, c := range tb.Cols {
-					if c.Name != "s0" && rapid.IntRange(0, 3).Draw(t, "copycol") > 0 {
-						r[c.Name] = src[c.Name].Clone()
-					}
+	rapid.Check(t, func(t *rapid.T) { apiConditionalCase(t, "C08") })
+}
+
+// TestC03API: the same harness under C03's heading - operations built through the model
+// API (Create, Where*.Update / Mutate / Delete) have, when executed, the effect RFC 7047
+// gives to the operations the caller asked for.
+func TestC03API(t *testing.T) {
+	rapid.Check(t, func(t *rapid.T) { apiConditionalCase(t, "C03") })
+}
+
+func apiConditionalCase(t *rapid.T, prop string) {
+	kit.PinUUIDs(1)
+	tb := c08Table(t)
+	configs := c08Configs(t)
+	cfg := configs[rapid.IntRange(0, len(configs)-1).Draw(t, "config")]
+	tb.Indexes = cfg.schema
+	s := kit.Schema{Name: "DB", Version: "1.0.0", Tables: []kit.Table{tb}}
+	var cidx map[string][]model.ClientIndex
+	if len(cfg.client) > 0 {
+		cidx = map[string][]model.ClientIndex{tb.Name: cfg.client}
+	}
+	rows := kit.Rows{}
+	n := rapid.IntRange(0, 8).Draw(t, "nrows")
+	for i := 0; i < n; i++ {
+		r := genIndexRow(t, tb)
+		r["s0"] = kit.Scalar(kit.Str(fmt.Sprintf("n%d", i)))
+		if rapid.IntRange(0, 2).Draw(t, "copyrow") == 0 && i > 0 {
+			src := rows[kit.MkUUID(rapid.IntRange(1, i).Draw(t, "src"))]
+			for _, c := range tb.Cols {
+				if c.Name != "s0" && rapid.IntRange(0, 3).Draw(t, "copycol") > 0 {
+					r[c.Name] = src[c.Name].Clone()
 				}
 			}
-			for c, v := range r {
-				if hasZero(v) {
-					r[c] = kit.Scalar(kit.UUID(kit.MkUUID(900 + i)))
+		}
+		for c, v := range r {
+			if hasZero(v) {
+				r[c] = kit.Scalar(kit.UUID(kit.MkUUID(900 + i)))
+			}
+		}
+		rows[kit.MkUUID(i+1)] = r
+	}
+	kase := c08APICase{Schema: s.JSON(), Config: cfg.name, Rows: rows}
+	fail := func(class, format string, args ...interface{}) {
+		kit.Fail(t, prop, class, kase, format, args...)
+	}
+	a, err := newAPIWorld(s, cidx)
+	if err != nil {
+		t.Fatalf("harness: %v", err)
+	}
+	defer a.close()
+	if err := a.load(tb.Name, rows); err != nil {
+		t.Fatalf("harness: load: %v", err)
+	}
+	w := a.w
+	typ := w.Types[tb.Name].Elem()
+	g := kit.NewTxnGen(s, kit.TxnCfg{})
+	pool := &kit.Pool{RowUUIDs: map[string][]string{}}
+	genConds := func(min int) []kit.Cond {
+		var conds []kit.Cond
+		for len(conds) < min || (len(conds) < 3 && rapid.Bool().Draw(t, "morecond")) {
+			c := genC08Cond(t, g, tb, rows, pool)
+			if hasZero(c.Val) {
+				continue
+			}
+			if col := tb.ColOf(c.Col); col != nil && col.IsEnum() && !enumCondOK {
+				continue
+			}
+			conds = append(conds, c)
+		}
+		return conds
+	}
+	var capi client.ConditionalAPI
+	var expected map[string]bool
+	exact := true // expected is the exact answer (otherwise a superset rule is checked below)
+	kind := rapid.SampledFrom([]string{"WhereAll", "WhereAll", "WhereAny", "WhereCache", "Where(model)", "Where(models)"}).Draw(t, "conditional")
+	switch kind {
+	case "WhereAll", "WhereAny":
+		conds := genConds(1)
+		if kind == "WhereAny" && n > 0 && rapid.Bool().Draw(t, "confusable") {
+			// two conditions on one column whose values print alike (["a b"] and ["a","b"],
+			// [] and [""], unset and ""): the second one is the value a stored row holds
+			src := rows[kit.MkUUID(rapid.IntRange(1, n).Draw(t, "confrow"))]
+			for _, c := range tb.Cols {
+				if alike, ok := confusableValue(c, src[c.Name]); ok && rapid.Bool().Draw(t, "confcol") {
+					conds = []kit.Cond{{Col: c.Name, Fn: "==", Val: alike}, {Col: c.Name, Fn: "==", Val: src[c.Name]}}
+					kit.Label(prop, "api:where-any-confusable-values")
+					break
 				}
 			}
-			rows[kit.MkUUID(i+1)] = r
 		}
-		kase := c08APICase{Schema: s.JSON(), Config: cfg.name, Rows: rows}
-		fail := func(class, format string, args ...interface{}) {
-			kit.Fail(t, "C08", class, kase, format, args...)
+		m := reflect.New(typ).Interface()
+		var mcs []model.Condition
+		for _, c := range conds {
+			mcs = append(mcs, nativeCond(w, tb, m, c))
 		}
-		a, err := newAPIWorld(s, cidx)
-		if err != nil {
-			t.Fatalf("harness: %v", err)
-		}
-		defer a.close()
-		if err := a.load(tb.Name, rows); err != nil {
-			t.Fatalf("harness: load: %v", err)
-		}
-		w := a.w
-		typ := w.Types[tb.Name].Elem()
-		g := kit.NewTxnGen(s, kit.TxnCfg{})
-		pool := &kit.Pool{RowUUIDs: map[string][]string{}}
-		genConds := func(min int) []kit.Cond {
-			var conds []kit.Cond
-			for len(conds) < min || (len(conds) < 3 && rapid.Bool().Draw(t, "morecond")) {
-				c := genC08Cond(t, g, tb, rows, pool)
-				if hasZero(c.Val) {
-					continue
-				}
-				if col := tb.ColOf(c.Col); col != nil && col.IsEnum() && !enumCondOK {
-					continue
-				}
-				conds = append(conds, c)
-			}
-			return conds
-		}
-		var capi client.ConditionalAPI
-		var expected map[string]bool
-		exact := true // expected is the exact answer (otherwise a superset rule is checked below)
-		kind := rapid.SampledFrom([]string{"WhereAll", "WhereAll", "WhereAny", "WhereCache", "Where(model)", "Where(models)"}).Draw(t, "conditional")
-		switch kind {
-		case "WhereAll", "WhereAny":
-			conds := genConds(1)
-			m := reflect.New(typ).Interface()
-			var mcs []model.Condition
-			for _, c := range conds {
-				mcs = append(mcs, nativeCond(w, tb, m, c))
-			}
-			kase.Conditional = fmt.Sprintf("%s %s", kind, kit.MustJSON(kit.Op{Op: "select", Table: tb.Name, Where: conds}.Wire(s)))
-			if kind == "WhereAll" {
-				capi = a.c.WhereAll(m, mcs...)
-				expected, err = matchConds(s, tb, rows, conds)
-			} else {
-				capi = a.c.WhereAny(m, mcs...)
-				expected = map[string]bool{}
-				for _, c := range conds {
-					one, e := matchConds(s, tb, rows, []kit.Cond{c})
-					if e != nil {
-						err = e
-					}
-					for u := range one {
-						expected[u] = true
-					}
-				}
-			}
-			if err != nil {
-				t.Fatalf("harness: %v", err)
-			}
-		case "WhereCache":
-			conds := genConds(0)
-			kase.Conditional = fmt.Sprintf("WhereCache(row satisfies %s)", kit.MustJSON(kit.Op{Op: "select", Table: tb.Name, Where: conds}.Wire(s)))
+		kase.Conditional = fmt.Sprintf("%s %s", kind, kit.MustJSON(kit.Op{Op: "select", Table: tb.Name, Where: conds}.Wire(s)))
+		if kind == "WhereAll" {
+			capi = a.c.WhereAll(m, mcs...)
 			expected, err = matchConds(s, tb, rows, conds)
-			if err != nil {
-				t.Fatalf("harness: %v", err)
-			}
-			pred := reflect.MakeFunc(reflect.FuncOf([]reflect.Type{reflect.PointerTo(typ)}, []reflect.Type{reflect.TypeOf(true)}, false),
-				func(args []reflect.Value) []reflect.Value {
-					u, r, err := w.RowFromModel(tb.Name, args[0].Interface())
-					if err != nil {
-						return []reflect.Value{reflect.ValueOf(false)}
-					}
-					one, err := matchConds(s, tb, kit.Rows{u: r}, conds)
-					return []reflect.Value{reflect.ValueOf(err == nil && one[u])}
-				}).Interface()
-			capi = a.c.WhereCache(pred)
-		default:
-			// probes: copies of stored rows with some columns replaced, with or without uuid
-			nm := 1
-			if kind == "Where(models)" {
-				nm = rapid.IntRange(2, 3).Draw(t, "nmodels")
-			}
-			var probes []model.Model
-			var descr []string
+		} else {
+			capi = a.c.WhereAny(m, mcs...)
 			expected = map[string]bool{}
-			for i := 0; i < nm; i++ {
-				pr := genIndexRow(t, tb)
-				if n > 0 && rapid.IntRange(0, 4).Draw(t, "fromrow") > 0 {
-					src := rows[kit.MkUUID(rapid.IntRange(1, n).Draw(t, "src"))]
-					for _, c := range tb.Cols {
-						if rapid.IntRange(0, 3).Draw(t, "keepcol") > 0 {
-							pr[c.Name] = src[c.Name].Clone()
-						}
-					}
+			for _, c := range conds {
+				one, e := matchConds(s, tb, rows, []kit.Cond{c})
+				if e != nil {
+					err = e
 				}
-				for c, v := range pr {
-					if hasZero(v) {
-						pr[c] = kit.Scalar(kit.UUID(kit.MkUUID(950 + i)))
-					}
-				}
-				pu := ""
-				if n > 0 && rapid.IntRange(0, 3).Draw(t, "withuuid") == 0 {
-					pu = kit.MkUUID(rapid.IntRange(1, n+1).Draw(t, "probeuuid"))
-				}
-				probes = append(probes, w.ModelFromRow(tb.Name, pu, pr))
-				descr = append(descr, fmt.Sprintf("{uuid:%q %s}", pu, pr.Key()))
-				for u := range whereModelExpected(tb, cfg, rows, pu, pr) {
+				for u := range one {
 					expected[u] = true
 				}
 			}
-			kase.Conditional = fmt.Sprintf("Where(%s)", strings.Join(descr, ", "))
-			capi = a.c.Where(probes...)
 		}
-
-		// ---- List ----
-		listed := func() (map[string]bool, kit.Rows, error) {
-			res := reflect.New(reflect.SliceOf(typ))
-			if err := capi.List(a.ctx, res.Interface()); err != nil {
-				return nil, nil, err
-			}
-			got, err := rowsOfModels(w, tb.Name, modelsOf(res.Elem()))
-			if err != nil {
-				return nil, nil, err
-			}
-			set := map[string]bool{}
-			for u := range got {
-				set[u] = true
-			}
-			return set, got, nil
-		}
-		gotSet, gotRows, err := listed()
 		if err != nil {
-			fail("api.list-error", "%s: List failed: %v", kase.Conditional, err)
+			t.Fatalf("harness: %v", err)
 		}
-		for u, r := range gotRows {
-			if r.Key() != rows[u].Key() {
-				fail("api.list-content", "%s: List returned row %s as %s, stored %s", kase.Conditional, u, r.Key(), rows[u].Key())
-			}
+	case "WhereCache":
+		conds := genConds(0)
+		kase.Conditional = fmt.Sprintf("WhereCache(row satisfies %s)", kit.MustJSON(kit.Op{Op: "select", Table: tb.Name, Where: conds}.Wire(s)))
+		expected, err = matchConds(s, tb, rows, conds)
+		if err != nil {
+			t.Fatalf("harness: %v", err)
 		}
-		if exact && setKey(gotSet) != setKey(expected) {
-			fail("api.list-wrong-rows", "%s: List returns rows %s, expected %s", kase.Conditional, setKey(gotSet), setKey(expected))
-		}
-
-		// ---- the generated operations affect exactly the listed rows ----
-		// The expected effect is computed by the reference interpreter on one operation per
-		// listed row (where _uuid == row): that is the set of rows the statement promises.
-		action := rapid.SampledFrom([]string{"Delete", "Update", "Mutate"}).Draw(t, "action")
-		kase.Action = action
-		var ops []ovsdb.Operation
-		listedUUIDs := make([]string, 0, len(gotSet))
-		for u := range gotSet {
-			listedUUIDs = append(listedUUIDs, u)
-		}
-		sort.Strings(listedUUIDs)
-		var refOps []kit.Op
-		byUUID := func(u string) []kit.Cond {
-			return []kit.Cond{{Col: "_uuid", Fn: "==", Val: kit.Scalar(kit.UUID(u))}}
-		}
-		switch action {
-		case "Delete":
-			ops, err = capi.Delete()
-			for _, u := range listedUUIDs {
-				refOps = append(refOps, kit.Op{Op: "delete", Table: tb.Name, Where: byUUID(u)})
-			}
-		case "Update":
-			// 1-2 drawn columns get drawn values through the model
-			m := reflect.New(typ).Interface()
-			row := kit.Row{}
-			var fields []interface{}
-			var names []string
-			for _, ci := range rapid.Permutation([]int{1, 2, 3, 4, 5, 6}).Draw(t, "updcols")[:rapid.IntRange(1, 2).Draw(t, "nupd")] {
-				c := tb.Cols[ci]
-				var v kit.Val
-				if c.Name == "m" {
-					v = genIndexRow(t, tb)["m"]
-				} else {
-					v = kit.GenVal(t, c, nil)
+		pred := reflect.MakeFunc(reflect.FuncOf([]reflect.Type{reflect.PointerTo(typ)}, []reflect.Type{reflect.TypeOf(true)}, false),
+			func(args []reflect.Value) []reflect.Value {
+				u, r, err := w.RowFromModel(tb.Name, args[0].Interface())
+				if err != nil {
+					return []reflect.Value{reflect.ValueOf(false)}
 				}
+				one, err := matchConds(s, tb, kit.Rows{u: r}, conds)
+				return []reflect.Value{reflect.ValueOf(err == nil && one[u])}
+			}).Interface()
+		capi = a.c.WhereCache(pred)
+	default:
+		// probes: copies of stored rows with some columns replaced, with or without uuid
+		nm := 1
+		if kind == "Where(models)" {
+			nm = rapid.IntRange(2, 3).Draw(t, "nmodels")
+		}
+		var probes []model.Model
+		var descr []string
+		expected = map[string]bool{}
+		for i := 0; i < nm; i++ {
+			pr := genIndexRow(t, tb)
+			if n > 0 && rapid.IntRange(0, 4).Draw(t, "fromrow") > 0 {
+				src := rows[kit.MkUUID(rapid.IntRange(1, n).Draw(t, "src"))]
+				for _, c := range tb.Cols {
+					if rapid.IntRange(0, 3).Draw(t, "keepcol") > 0 {
+						pr[c.Name] = src[c.Name].Clone()
+					}
+				}
+			}
+			for c, v := range pr {
 				if hasZero(v) {
-					v = kit.Scalar(kit.UUID(kit.MkUUID(970)))
+					pr[c] = kit.Scalar(kit.UUID(kit.MkUUID(950 + i)))
 				}
-				row[c.Name] = v
-				reflect.ValueOf(m).Elem().FieldByName(kit.FieldName(ci)).Set(reflect.ValueOf(kit.ToNative(c, v)))
-				fields = append(fields, fieldPtrByColumn(w, tb.Name, m, c.Name))
-				names = append(names, c.Name+"="+v.Key())
 			}
-			kase.Action = "Update(" + strings.Join(names, ", ") + ")"
-			ops, err = capi.Update(m, fields...)
-			for _, u := range listedUUIDs {
-				refOps = append(refOps, kit.Op{Op: "update", Table: tb.Name, Where: byUUID(u), Row: row})
+			pu := ""
+			if n > 0 && rapid.IntRange(0, 3).Draw(t, "withuuid") == 0 {
+				pu = kit.MkUUID(rapid.IntRange(1, n+1).Draw(t, "probeuuid"))
 			}
-		default:
-			// a mutation of the set, the map or a numeric scalar column through the model
-			m := reflect.New(typ).Interface()
-			var cands []kit.Col
-			for _, c := range tb.Cols {
-				numeric := c.Shape() == kit.ShScalar && len(c.Key.Enum) == 0 && (c.Key.T == kit.TInt || c.Key.T == kit.TReal)
-				if c.Name == "set" || c.Name == "m" || (numeric && !inAnyIndex(cfg, c.Name)) {
-					cands = append(cands, c)
-				}
+			probes = append(probes, w.ModelFromRow(tb.Name, pu, pr))
+			descr = append(descr, fmt.Sprintf("{uuid:%q %s}", pu, pr.Key()))
+			for u := range whereModelExpected(tb, cfg, rows, pu, pr) {
+				expected[u] = true
+			}
+		}
+		kase.Conditional = fmt.Sprintf("Where(%s)", strings.Join(descr, ", "))
+		capi = a.c.Where(probes...)
+	}
+
+	// ---- List ----
+	listed := func() (map[string]bool, kit.Rows, error) {
+		res := reflect.New(reflect.SliceOf(typ))
+		if err := capi.List(a.ctx, res.Interface()); err != nil {
+			return nil, nil, err
+		}
+		got, err := rowsOfModels(w, tb.Name, modelsOf(res.Elem()))
+		if err != nil {
+			return nil, nil, err
+		}
+		set := map[string]bool{}
+		for u := range got {
+			set[u] = true
+		}
+		return set, got, nil
+	}
+	gotSet, gotRows, err := listed()
+	if err != nil {
+		fail("api.list-error", "%s: List failed: %v", kase.Conditional, err)
+	}
+	for u, r := range gotRows {
+		if r.Key() != rows[u].Key() {
+			fail("api.list-content", "%s: List returned row %s as %s, stored %s", kase.Conditional, u, r.Key(), rows[u].Key())
+		}
+	}
+	if exact && setKey(gotSet) != setKey(expected) {
+		fail("api.list-wrong-rows", "%s: List returns rows %s, expected %s", kase.Conditional, setKey(gotSet), setKey(expected))
+	}
+
+	// ---- the generated operations affect exactly the listed rows ----
+	// The expected effect is computed by the reference interpreter on one operation per
+	// listed row (where _uuid == row): that is the set of rows the statement promises.
+	action := rapid.SampledFrom([]string{"Delete", "Update", "Mutate"}).Draw(t, "action")
+	kase.Action = action
+	var ops []ovsdb.Operation
+	listedUUIDs := make([]string, 0, len(gotSet))
+	for u := range gotSet {
+		listedUUIDs = append(listedUUIDs, u)
+	}
+	sort.Strings(listedUUIDs)
+	var refOps []kit.Op
+	byUUID := func(u string) []kit.Cond {
+		return []kit.Cond{{Col: "_uuid", Fn: "==", Val: kit.Scalar(kit.UUID(u))}}
+	}
+	switch action {
+	case "Delete":
+		ops, err = capi.Delete()
+		for _, u := range listedUUIDs {
+			refOps = append(refOps, kit.Op{Op: "delete", Table: tb.Name, Where: byUUID(u)})
+		}
+	case "Update":
+		// 1-2 drawn columns get drawn values through the model
+		m := reflect.New(typ).Interface()
+		row := kit.Row{}
+		var fields []interface{}
+		var names []string
+		for _, ci := range rapid.Permutation([]int{1, 2, 3, 4, 5, 6}).Draw(t, "updcols")[:rapid.IntRange(1, 2).Draw(t, "nupd")] {
+			c := tb.Cols[ci]
+			var v kit.Val
+			if c.Name == "m" {
+				v = genIndexRow(t, tb)["m"]
+			} else {
+				v = kit.GenVal(t, c, nil)
+			}
+			if hasZero(v) {
+				v = kit.Scalar(kit.UUID(kit.MkUUID(970)))
+			}
+			row[c.Name] = v
+			reflect.ValueOf(m).Elem().FieldByName(kit.FieldName(ci)).Set(reflect.ValueOf(kit.ToNative(c, v)))
+			fields = append(fields, fieldPtrByColumn(w, tb.Name, m, c.Name))
+			names = append(names, c.Name+"="+v.Key())
+		}
+		kase.Action = "Update(" + strings.Join(names, ", ") + ")"
+		ops, err = capi.Update(m, fields...)
+		for _, u := range listedUUIDs {
+			refOps = append(refOps, kit.Op{Op: "update", Table: tb.Name, Where: byUUID(u), Row: row})
+		}
+	default:
+		// a mutation of the set, the map or a numeric scalar column through the model
+		m := reflect.New(typ).Interface()
+		var cands []kit.Col
+		for _, c := range tb.Cols {
+			numeric := c.Shape() == kit.ShScalar && len(c.Key.Enum) == 0 && (c.Key.T == kit.TInt || c.Key.T == kit.TReal)
+			if c.Name == "set" || c.Name == "m" || (numeric && !inAnyIndex(cfg, c.Name)) {
+				cands = append(cands, c)
+			}
+		}
+		// 1-3 mutations; the same mutation may be asked for more than once (they apply in sequence)
+		var muts []kit.Mut
+		var mobjs []model.Mutation
+		var descr []string
+		for i, nmut := 0, rapid.IntRange(1, 3).Draw(t, "nmutations"); i < nmut; i++ {
+			if i > 0 && rapid.IntRange(0, 2).Draw(t, "repeatmutation") == 0 {
+				k := rapid.IntRange(0, len(muts)-1).Draw(t, "which")
+				muts = append(muts, muts[k])
+				mobjs = append(mobjs, mobjs[k])
+				descr = append(descr, descr[k])
+				continue
 			}
 			c := cands[rapid.IntRange(0, len(cands)-1).Draw(t, "mutcol")]
 			var cur *kit.Val
@@ -586,108 +620,143 @@ func TestC08API(t *testing.T) {
 				}
 			}
 			var value interface{}
-			switch {
-			case c.Shape() == kit.ShMap && !mut.Val.M:
+			if c.Shape() == kit.ShMap && !mut.Val.M {
 				// delete by keys: a slice of the key type
 				keys := reflect.MakeSlice(reflect.SliceOf(c.GoType().Key()), 0, len(mut.Val.K))
 				for _, k := range mut.Val.K {
 					keys = reflect.Append(keys, reflect.ValueOf(kit.ToNative(kit.Col{Name: "k", Key: c.Key, Min: 1, Max: 1}, kit.Scalar(k))))
 				}
 				value = keys.Interface()
-			case c.Shape() == kit.ShScalar:
-				value = kit.ToNative(c, mut.Val)
-			default:
+			} else {
 				value = kit.ToNative(c, mut.Val)
 			}
-			kase.Action = fmt.Sprintf("Mutate(%s %s %s)", c.Name, mut.Mutator, mut.Val.Key())
-			ops, err = capi.Mutate(m, model.Mutation{Field: fieldPtrByColumn(w, tb.Name, m, c.Name), Mutator: ovsdb.Mutator(mut.Mutator), Value: value})
-			for _, u := range listedUUIDs {
-				refOps = append(refOps, kit.Op{Op: "mutate", Table: tb.Name, Where: byUUID(u), Mutations: []kit.Mut{mut}})
+			muts = append(muts, mut)
+			mobjs = append(mobjs, model.Mutation{Field: fieldPtrByColumn(w, tb.Name, m, c.Name), Mutator: ovsdb.Mutator(mut.Mutator), Value: value})
+			descr = append(descr, fmt.Sprintf("%s %s %s", c.Name, mut.Mutator, mut.Val.Key()))
+		}
+		kase.Action = "Mutate(" + strings.Join(descr, "; ") + ")"
+		if len(muts) > 1 {
+			kit.Label(prop, "api:mutate-several-mutations")
+		}
+		ops, err = capi.Mutate(m, mobjs...)
+		for _, u := range listedUUIDs {
+			refOps = append(refOps, kit.Op{Op: "mutate", Table: tb.Name, Where: byUUID(u), Mutations: muts})
+		}
+	}
+	want := rows
+	expectReject := ""
+	if len(refOps) > 0 {
+		ref := refdb.Exec(s, kit.State{tb.Name: rows}, refOps, nil)
+		switch {
+		case ref.FailedAt >= 0:
+			expectReject = fmt.Sprintf("operation %d: %s %s", ref.FailedAt, ref.Results[ref.FailedAt].Err, ref.Results[ref.FailedAt].Detail)
+		case ref.CommitErr != "":
+			expectReject = "commit: " + ref.CommitErr + " " + ref.Detail
+		case ref.NegativeZero:
+			t.Skip("negative zero")
+		default:
+			want = ref.Post[tb.Name]
+		}
+		for _, r := range ref.Results {
+			if r.MayReject != "" {
+				t.Skip("may-reject form")
 			}
 		}
-		want := rows
-		expectReject := ""
-		if len(refOps) > 0 {
-			ref := refdb.Exec(s, kit.State{tb.Name: rows}, refOps, nil)
-			switch {
-			case ref.FailedAt >= 0:
-				expectReject = fmt.Sprintf("operation %d: %s %s", ref.FailedAt, ref.Results[ref.FailedAt].Err, ref.Results[ref.FailedAt].Detail)
-			case ref.CommitErr != "":
-				expectReject = "commit: " + ref.CommitErr + " " + ref.Detail
-			case ref.NegativeZero:
-				t.Skip("negative zero")
-			default:
-				want = ref.Post[tb.Name]
-			}
-			for _, r := range ref.Results {
-				if r.MayReject != "" {
-					t.Skip("may-reject form")
-				}
-			}
+	}
+	if err != nil {
+		if len(gotSet) > 0 {
+			fail("api.ops-error", "%s: List reports %s but %s() fails: %v", kase.Conditional, setKey(gotSet), action, err)
 		}
-		if err != nil {
-			if len(gotSet) > 0 {
-				fail("api.ops-error", "%s: List reports %s but %s() fails: %v", kase.Conditional, setKey(gotSet), action, err)
-			}
-			kit.Record("C08", "api|"+kind+"|"+action+"|no-ops", false, func() interface{} { return kase }, "api:"+kind, "api:"+action)
+		kit.Record(prop, "api|"+kind+"|"+action+"|no-ops", false, func() interface{} { return kase }, "api:"+kind, "api:"+action)
+		return
+	}
+	if len(ops) == 0 {
+		if len(gotSet) > 0 {
+			fail("api.ops-error", "%s: List reports %s but %s() generates no operation", kase.Conditional, setKey(gotSet), action)
+		}
+		kit.Record(prop, "api|"+kind+"|"+action+"|no-ops", false, func() interface{} { return kase }, "api:"+kind, "api:"+action)
+		return
+	}
+	res, err := a.c.Transact(a.ctx, ops...)
+	if err != nil {
+		if expectReject != "" {
+			// refused on the client side already
+			kit.Record(prop, "api|"+kind+"|"+action+"|refused", false, func() interface{} { return kase }, "api:"+kind, "api:"+action, "api:rejected-as-expected")
 			return
 		}
-		if len(ops) == 0 {
-			if len(gotSet) > 0 {
-				fail("api.ops-error", "%s: List reports %s but %s() generates no operation", kase.Conditional, setKey(gotSet), action)
+		fail("api.ops-error", "%s: transact of the %s operations failed: %v (%s)", kase.Conditional, kase.Action, err, kit.MustJSON(ops))
+	}
+	count := 0
+	rejected := ""
+	for i, r := range res {
+		if r.Error != "" {
+			rejected = fmt.Sprintf("operation %d: %s %s", i, r.Error, r.Details)
+			break
+		}
+		count += r.Count
+	}
+	if rejected != "" && expectReject == "" {
+		fail("api.ops-error", "%s: %s failed: %s (%s)", kase.Conditional, kase.Action, rejected, kit.MustJSON(ops))
+	}
+	if rejected == "" && expectReject != "" {
+		fail("api.ops-missing-error", "%s: %s on rows %s must be rejected (%s) but was executed (%s)", kase.Conditional, kase.Action, setKey(gotSet), expectReject, kit.MustJSON(ops))
+	}
+	post, err := a.srv.Snapshot()
+	if err != nil {
+		t.Fatalf("harness: snapshot: %v", err)
+	}
+	if d := kit.DiffStates(kit.State{tb.Name: want}, post); len(d) > 0 {
+		fail("api.ops-affect-other-rows", "%s: List reports %s, but executing %s (%s) leaves the database different from applying it to exactly those rows:\n%s", kase.Conditional, setKey(gotSet), kase.Action, kit.MustJSON(ops), strings.Join(d, "\n"))
+	}
+	if rejected == "" && count != len(gotSet) {
+		fail("api.ops-count", "%s: List reports %d rows, the %s operations report %d affected rows (%s)", kase.Conditional, len(gotSet), action, count, kit.MustJSON(ops))
+	}
+	// the cache followed
+	cached, err := kit.CacheRows(w, a.c, tb.Name)
+	if err != nil {
+		t.Fatalf("harness: %v", err)
+	}
+	if d := kit.DiffStates(post, kit.State{tb.Name: cached}); len(d) > 0 {
+		fail("api.cache-differs", "after %s the cache differs from the database:\n%s", action, strings.Join(d, "\n"))
+	}
+	nontrivial := len(gotSet) > 0 && len(gotSet) < len(rows)
+	outcome := "api:executed"
+	if rejected != "" {
+		outcome = "api:rejected-as-expected"
+	}
+	kit.Record(prop, fmt.Sprintf("api|%s|%s|%s|%d", kind, kase.Action, cfg.name, len(gotSet)), nontrivial, func() interface{} { return kase }, "api:"+kind, "api:"+action, outcome)
+}
+
+// confusableValue returns a different value of the column that renders like v when
+// printed element by element with spaces in between.
+func confusableValue(c kit.Col, v kit.Val) (kit.Val, bool) {
+	if c.Key.T != kit.TStr || len(c.Key.Enum) > 0 {
+		return kit.Val{}, false
+	}
+	switch c.Shape() {
+	case kit.ShSet, kit.ShOpt:
+		switch {
+		case len(v.K) >= 2 && c.Shape() == kit.ShSet:
+			var parts []string
+			for _, a := range v.K {
+				parts = append(parts, a.S)
 			}
-			kit.Record("C08", "api|"+kind+"|"+action+"|no-ops", false, func() interface{} { return kase }, "api:"+kind, "api:"+action)
-			return
+			return kit.SetOf(kit.Str(strings.Join(parts, " "))), true
+		case len(v.K) == 1 && v.K[0].S == "":
+			return kit.EmptySet(), true
+		case len(v.K) == 0:
+			return kit.SetOf(kit.Str("")), true
 		}
-		res, err := a.c.Transact(a.ctx, ops...)
-		if err != nil {
-			if expectReject != "" {
-				// refused on the client side already
-				kit.Record("C08", "api|"+kind+"|"+action+"|refused", false, func() interface{} { return kase }, "api:"+kind, "api:"+action, "api:rejected-as-expected")
-				return
+	case kit.ShMap:
+		if c.Value != nil && c.Value.T == kit.TStr && len(v.K) >= 2 {
+			joined := v.V[0].S
+			for i := 1; i < len(v.K); i++ {
+				joined += " " + v.K[i].S + ":" + v.V[i].S
 			}
-			fail("api.ops-error", "%s: transact of the %s operations failed: %v (%s)", kase.Conditional, kase.Action, err, kit.MustJSON(ops))
+			return kit.MapOf(v.K[0], kit.Str(joined)), true
 		}
-		count := 0
-		rejected := ""
-		for i, r := range res {
-			if r.Error != "" {
-				rejected = fmt.Sprintf("operation %d: %s %s", i, r.Error, r.Details)
-				break
-			}
-			count += r.Count
-		}
-		if rejected != "" && expectReject == "" {
-			fail("api.ops-error", "%s: %s failed: %s (%s)", kase.Conditional, kase.Action, rejected, kit.MustJSON(ops))
-		}
-		if rejected == "" && expectReject != "" {
-			fail("api.ops-missing-error", "%s: %s on rows %s must be rejected (%s) but was executed (%s)", kase.Conditional, kase.Action, setKey(gotSet), expectReject, kit.MustJSON(ops))
-		}
-		post, err := a.srv.Snapshot()
-		if err != nil {
-			t.Fatalf("harness: snapshot: %v", err)
-		}
-		if d := kit.DiffStates(kit.State{tb.Name: want}, post); len(d) > 0 {
-			fail("api.ops-affect-other-rows", "%s: List reports %s, but executing %s (%s) leaves the database different from applying it to exactly those rows:\n%s", kase.Conditional, setKey(gotSet), kase.Action, kit.MustJSON(ops), strings.Join(d, "\n"))
-		}
-		if rejected == "" && count != len(gotSet) {
-			fail("api.ops-count", "%s: List reports %d rows, the %s operations report %d affected rows (%s)", kase.Conditional, len(gotSet), action, count, kit.MustJSON(ops))
-		}
-		// the cache followed
-		cached, err := kit.CacheRows(w, a.c, tb.Name)
-		if err != nil {
-			t.Fatalf("harness: %v", err)
-		}
-		if d := kit.DiffStates(post, kit.State{tb.Name: cached}); len(d) > 0 {
-			fail("api.cache-differs", "after %s the cache differs from the database:\n%s", action, strings.Join(d, "\n"))
-		}
-		nontrivial := len(gotSet) > 0 && len(gotSet) < len(rows)
-		outcome := "api:executed"
-		if rejected != "" {
-			outcome = "api:rejected-as-expected"
-		}
-		kit.Record("C08", fmt.Sprintf("api|%s|%s|%s|%d", kind, kase.Action, cfg.name, len(gotSet)), nontrivial, func() interface{} { return kase }, "api:"+kind, "api:"+action, outcome)
-	})
+	}
+	return kit.Val{}, false
 }
 
 func inAnyIndex(cfg c08Config, col string) bool {
